@@ -13,7 +13,7 @@ CORE = {
                 mc_q=[('MC_c01_q', 300)], mc_t=[('MC_c01_t', 1500)],
                 fam_q=[('core', 200), ('merge', 80), ('dup', 4)], fam_t=[('core', 4000), ('merge', 1500), ('memmerge', 500), ('dup', 16)]),
     'C02': dict(prefixes=['C02_'], mc_q=[('MC_durable_q', 300)], mc_t=[('MC_durable', 1500)],
-                fam_q=[('images', 32), ('memmerge', 48), ('core', 64)], fam_t=[('images', 400), ('memmerge', 600), ('crash2', 200), ('core', 1000)]),
+                fam_q=[('images', 32), ('memmerge', 48), ('core', 64), ('faults', 64)], fam_t=[('images', 400), ('memmerge', 600), ('crash2', 200), ('core', 1000), ('faults', 800)]),
     'C03': dict(prefixes=['C03_', 'C02_acked_lost', 'C02_AckedDurable', 'C11_reopen_after_close_failed'],   # '... durability and this property keep holding across any number of further crashes'
                 mc_q=[('MC_crash2_q', 300), ('MC_durable_q', 300)], mc_t=[('MC_durable', 1500), ('MC_crash2_t', 1500)],
                 fam_q=[('images', 24), ('crash2', 24), ('memmerge', 32), ('mergeimg', 12)], fam_t=[('images', 400), ('crash2', 400), ('memmerge', 600), ('mergeimg', 200)]),
